@@ -295,6 +295,15 @@ LIST_METHODS = {"append", "extend"}
 def method_call(eng, node, st, preargs=None):
     f = node.func
     mname = f.attr
+    if mname == "get" and isinstance(f.value, ast.Attribute) and f.value.attr in eng.memo_tables():
+        # MEMO-TABLE: a class-level dictionary keyed by the (immutable) argument that caches a value depending
+        # only on the key - established by the structural obligation memo-invariant[table] (pyvc.frames).  The
+        # function is verified on its cold path (no entry: `.get` gives its default); on the warm path it returns
+        # the same value by that invariant.
+        eng.rules_used.add(f"memo-table {f.value.attr} (cold path verified; warm path by the memo-invariant obligation)")
+        for a in node.args[:1]:
+            eng.ev(a, st)
+        return eng.ev(node.args[1], st) if len(node.args) > 1 else NONE
     # itertools.x handled in SIMPLE; here: obj.method(...)
     base = eng.ev(f.value, st)
     args = preargs if preargs is not None else [eng.ev(a, st) for a in node.args]
@@ -444,6 +453,15 @@ def b_len(eng, st, a, kw):
         return IntV(v.n)
     if isinstance(v, TupV):
         return IntV(len(v))
+    if isinstance(v, SetV) and v.arity == 1 and eng.contract is not None and getattr(eng.contract.cls, "set_universe", None):
+        # BOUNDED-SET-CARDINALITY: a set of integers inside a small stated range [lo, hi) (obligation) has as many
+        # elements as there are members of the range in it
+        lo, hi = eng.contract.cls.set_universe
+        x = fresh("su")
+        if not eng.concrete:
+            eng.emit("set-universe", st, z3.ForAll([x], z3.Implies(B(v.contains(IntV(x))), z3.And(x >= lo, x < hi))))
+        eng.rules_used.add(f"bounded-set-cardinality (a set of integers inside [{lo}, {hi}) has sum of memberships many elements)")
+        return IntV(z3.Sum([z3.If(B(v.contains(IntV(z3.IntVal(k)))), 1, 0) for k in range(lo, hi)]))
     if isinstance(v, ObjV) and v.cls == "AbstractPatt":
         return v.fields["__len__"]
     if isinstance(v, ObjV) and "__len__" in v.fields:
